@@ -387,21 +387,18 @@ def shards(tier, seed):
     FD = dict(v="fluent-default", w="fluent-default", n="fluent-default")
     MIX = dict(v="explicit", w="type-default", n="explicit")
     shapes_all = sorted(SHAPES)
-    # (1) initial state: all mode combinations (3^3) x Boolean values x model index; one shard per (shape group, type default)
-    for tdef in (None, False, True):
-        for shape in (shapes_all if not quick else (3, 5, 9)):
+    # (1) initial state: all mode combinations (3^3) x Boolean values x model index; one shard per (shape, type default)
+    for shape in shapes_all:
+        out.append(dict(name=f"init-shape{shape}-tdefNone", fn="h_init", kwargs=dict(shape=shape, tdef=None), budget=bud, engine="direct"))
+    for tdef in (False, True):
+        for shape in (shapes_all if not quick else (3, 9)):
             out.append(dict(name=f"init-shape{shape}-tdef{tdef}", fn="h_init", kwargs=dict(shape=shape, tdef=tdef), budget=bud, engine="direct"))
-    if quick:
-        for shape in (0, 1, 2, 4, 6, 7, 8):
-            out.append(dict(name=f"init-shape{shape}-tdefNone", fn="h_init", kwargs=dict(shape=shape, tdef=None), budget=bud, engine="direct"))
     for hi in ("explicit", "default"):
         out.append(dict(name=f"init-shape3-hidden-{hi}", fn="h_init", kwargs=dict(shape=3, tdef=False, hidden_init=hi, modes=E), budget=bud, engine="direct"))
     # (2) runs against the twin
-    runs = [("explicit", E, None), ("typedef", TD, True), ("mix", MIX, False), ("fluentdef", FD, None)]
-    for tag, modes, tdef in runs:
-        for shape in ((3, 4, 5, 8) if quick else shapes_all):
-            if quick and tag in ("mix", "fluentdef") and shape not in (3, 8):
-                continue
+    runs = [("explicit", E, None, (3, 4, 5, 8)), ("typedef", TD, True, (3, 8)), ("mix", MIX, False, (3,)), ("fluentdef", FD, None, (3,))]
+    for tag, modes, tdef, qshapes in runs:
+        for shape in (qshapes if quick else shapes_all):
             out.append(dict(name=f"run-{tag}-shape{shape}", fn="h_run", kwargs=dict(shape=shape, modes=modes, tdef=tdef, steps=2 if quick else 3),
                             budget=bud, engine="direct"))
     out.append(dict(name="run-explicit-shape3-hidden-explicit", fn="h_run",
